@@ -177,7 +177,8 @@ Definition atom_node (n : pnode) (d : definition) (k : nat) (p : option nat) : P
 Definition bin_shape (n : pnode) (d : definition) (k : option nat) : Prop :=
   n_def n = d /\
   ((is_bin_sec (n_sec n) = true /\ exists tk, k = Some tk /\ n_tok n = Some tk) \/
-   (n_sec n = S_StartGrouping /\ d = D_List /\ k = None)).
+   (n_sec n = S_StartGrouping /\ d = D_List /\ k = None) \/
+   (n_sec n = S_Subexpression /\ exists tk, k = Some tk /\ n_tok n = Some tk)).   (* the separator `;` *)
 
 Fixpoint denotes (ns : list pnode) (p : option nat) (t : ntree) : Prop :=
   match t with
@@ -261,9 +262,10 @@ Proof.
     rewrite (IH (Some i) fuel A7) by lia. reflexivity.
   - destruct A as ([A0 A1] & A2 & A3 & A4 & A5 & A6). rewrite A3, A4.
     rewrite (IHl (Some i) fuel A5) by lia. rewrite (IHr (Some i) fuel A6) by lia.
-    destruct A1 as [(B1 & tk & -> & B2)|(B1 & -> & ->)].
+    destruct A1 as [(B1 & tk & -> & B2)|[(B1 & -> & ->)|(B1 & tk & -> & B2)]].
     + rewrite B2, A0. destruct (n_sec n); try discriminate; reflexivity.
     + rewrite B1, A0. reflexivity.
+    + rewrite B2, A0, B1. reflexivity.
   - destruct A as (A1 & A2 & A3 & A4 & A5 & A6 & A7). rewrite A1, A2, A4, A5, A6.
     rewrite (IH (Some i) fuel A7) by lia. destruct b; reflexivity.
 Qed.
